@@ -10,6 +10,7 @@ import (
 	"golang.org/x/tools/go/ssa"
 
 	"wtfverif/checker/internal/interval"
+	"wtfverif/checker/internal/bounds"
 	"wtfverif/checker/internal/load"
 	"wtfverif/checker/internal/pathev"
 	"wtfverif/checker/internal/slicefx"
@@ -263,6 +264,12 @@ func runC01(c *Ctx) {
 	r.Floor("O-1", "search entry points", len(entries), 8)
 	eng, cfg := c01Engine(c)
 	sx := eng.Sx
+	// overflow-aware intervals with parameter intervals from the call sites
+	be := bounds.New(sx, c.P.CallGraph(), c.P.IsRepoFunc)
+	be.InScope = func(fn *ssa.Function) bool { return isShipped(c, fn) }
+	for _, fn := range entries {
+		be.Roots[fn] = true
+	}
 
 	for _, fn := range entries {
 		fk := load.FuncKey(fn)
@@ -305,7 +312,7 @@ func runC01(c *Ctx) {
 		sort.Strings(unsorted)
 		r.Check(len(unsorted) == 0, "O-3", fk+"#sorted-desc", c.P.Pos(fn.Pos()), "every return is sorted by descending Score", "a list can be returned that is not known to be sorted by descending Score (returns at "+strings.Join(unsorted, ", ")+")")
 		// O-2
-		c01Default(c, sx, fn)
+		c01Default(c, be, fn)
 	}
 	c01CachePuts(c, eng, cfg)
 	c01Print(c, eng, "O-1")
@@ -316,10 +323,10 @@ func runC01(c *Ctx) {
 }
 
 // c01Default: limits used as slice bounds / capacities.
-func c01Default(c *Ctx, sx *symx.Ctx, fn *ssa.Function) {
+func c01Default(c *Ctx, be *bounds.Engine, fn *ssa.Function) {
 	r := c.R
-	f := sx.Of(fn)
-	q := interval.New(f)
+	f := be.Sx.Of(fn)
+	q := be.Of(fn).Q
 	fk := load.FuncKey(fn)
 	isLimit := func(v ssa.Value) bool {
 		s := f.Plain(v)
